@@ -1099,6 +1099,9 @@ class FnAnalysis(Analysis):
             if tm is not None and tm.kind in ("method", "staticmethod", "classmethod"):
                 return Val(kind="bmeth", types=frozenset([tm.qual]))        # the method itself, as a value
         base = self.val(e.value, st)
+        if base.may_none and base.taint and isinstance(e.ctx, ast.Load) and isinstance(e.value, (ast.Name, ast.Call, ast.Await)):
+            # `.x` on a value that is None on some path the peer selects (a helper that falls off its end for an unknown packet type, ...)
+            self.raiser(e, "AttributeError", f"`.{e.attr}` on a value that is None when the device omitted the field / sent an unexpected packet")
         if base.built and base.types and isinstance(e.ctx, ast.Load):
             missing = sorted(q for q in base.types if q in self.prog.classes and not self.has_attribute(self.prog.classes[q], e.attr))
             if missing:
